@@ -1,5 +1,6 @@
 import VModel.Merge
 import VModel.Scorer
+import VProofs.Lemmas.MergeAlg
 /-!
 # Correctness of the mirrored `…WeightMerger::merge` for an arbitrary weight type
 
@@ -10,9 +11,41 @@ is preserved when the weight of a suffix key is added to the weight of a key.
 namespace V.Merge
 variable {α : Type} [DecidableEq α] {W : Type}
 
+
+/-! ### association-list lookups -/
+
+theorem lookupD_map_self (d : W) (f : List α → W) (keys : List (List α)) (k : List α) (hk : k ∈ keys) :
+    lookupD d (keys.map fun q => (q, f q)) k = f k := by
+  induction keys with
+  | nil => simp at hk
+  | cons q r ih =>
+    simp only [List.map_cons, lookupD]
+    by_cases h : q = k
+    · subst h; simp
+    · rw [if_neg h]
+      rcases List.mem_cons.1 hk with e | e
+      · exact absurd e.symm h
+      · exact ih e
+
+theorem lookupD_of_mem (d : W) (entries : List (List α × W)) (hnd : (entries.map Prod.fst).Nodup)
+    (e : List α × W) (he : e ∈ entries) : lookupD d entries e.1 = e.2 := by
+  induction entries with
+  | nil => simp at he
+  | cons x r ih =>
+    obtain ⟨k', w'⟩ := x
+    simp only [List.map_cons, List.nodup_cons] at hnd
+    simp only [lookupD]
+    rcases List.mem_cons.1 he with h | h
+    · subst h; simp
+    · have hne : k' ≠ e.1 := by
+        intro heq
+        exact hnd.1 (heq ▸ List.mem_map_of_mem (f := Prod.fst) h)
+      rw [if_neg hne]
+      exact ih hnd.2 h
+
 theorem mergeEntries_keys (add : W → W → W) (d : W) (entries : List (List α × W)) :
     (mergeEntries add d entries).map Prod.fst = entries.map Prod.fst := by
-  sorry
+  simp [mergeEntries, List.map_map, Function.comp_def]
 
 /-- after `merge`, every key carries (under `ev`) the sum of the original weights of all keys that are suffixes of it
 (including itself), and the invariant `P` -/
@@ -25,7 +58,197 @@ theorem mergeEntries_correct (add : W → W → W) (d : W) (ev : W → Int) (P :
       P k (lookupD d (mergeEntries add d entries) k) ∧
       ev (lookupD d (mergeEntries add d entries) k)
         = ((entries.filter (fun e => e.1.isSuffixOf k)).map (fun e => ev e.2)).sum := by
-  sorry
+  intro k hk
+  have hw0 : ∀ q ∈ entries.map Prod.fst, P q (lookupD d entries q) := by
+    intro q hq
+    obtain ⟨e, he, rfl⟩ := List.mem_map.1 hq
+    rw [lookupD_of_mem d entries hnd e he]
+    exact hent e he
+  obtain ⟨h1, h2⟩ := merge_correct add ev P hP hadd (entries.map Prod.fst) (lookupD d entries) hnd hne hw0 k hk
+  have hl : lookupD d (mergeEntries add d entries) k
+      = (merge add (entries.map Prod.fst) (lookupD d entries)).w k := by
+    unfold mergeEntries
+    exact lookupD_map_self d _ _ k hk
+  rw [hl]
+  refine ⟨h1, ?_⟩
+  rw [h2]
+  unfold S
+  rw [List.filter_map, List.map_map]
+  congr 1
+  apply List.map_congr_left
+  intro e he
+  have he' : e ∈ entries := (List.mem_filter.1 he).1
+  simp [lookupD_of_mem d entries hnd e he']
+
+end V.Merge
+
+namespace V.Merge
+variable {α : Type} [DecidableEq α] {W : Type}
+
+/-! ### `addEntry` -/
+
+/-- sum (under `ev`) of all weights stored under key `k` -/
+def sumAt (ev : W → Int) (l : List (List α × W)) (k : List α) : Int :=
+  ((l.filter (fun e => decide (e.1 = k))).map (fun e => ev e.2)).sum
+
+theorem sumAt_nil (ev : W → Int) (k : List α) : sumAt ev ([] : List (List α × W)) k = 0 := rfl
+
+theorem sumAt_cons (ev : W → Int) (e : List α × W) (l : List (List α × W)) (k : List α) :
+    sumAt ev (e :: l) k = (if e.1 = k then ev e.2 else 0) + sumAt ev l k := by
+  unfold sumAt
+  by_cases h : e.1 = k <;> simp [h]
+
+theorem sumAt_not_mem (ev : W → Int) (l : List (List α × W)) (k : List α) (h : k ∉ l.map Prod.fst) :
+    sumAt ev l k = 0 := by
+  induction l with
+  | nil => rfl
+  | cons e r ih =>
+    simp only [List.map_cons, List.mem_cons, not_or] at h
+    rw [sumAt_cons, ih h.2, if_neg (fun e' => h.1 e'.symm)]; rfl
+
+theorem lookupD_eq_sumAt (d : W) (ev : W → Int) (l : List (List α × W)) (hnd : (l.map Prod.fst).Nodup)
+    (k : List α) (hk : k ∈ l.map Prod.fst) : ev (lookupD d l k) = sumAt ev l k := by
+  induction l with
+  | nil => simp at hk
+  | cons x r ih =>
+    obtain ⟨k', w'⟩ := x
+    simp only [List.map_cons, List.nodup_cons] at hnd
+    rw [sumAt_cons]
+    simp only [lookupD]
+    by_cases h : k' = k
+    · subst h
+      rw [if_pos rfl, if_pos rfl, sumAt_not_mem ev r _ hnd.1]; simp
+    · rw [if_neg h, if_neg h]
+      rcases List.mem_cons.1 hk with e | e
+      · exact absurd e.symm h
+      · rw [ih hnd.2 e]; simp
+
+theorem addEntry_keys (add : W → W → W) (l : List (List α × W)) (k : List α) (w : W) (x : List α) :
+    x ∈ (addEntry add l k w).map Prod.fst ↔ x ∈ l.map Prod.fst ∨ x = k := by
+  induction l with
+  | nil => simp [addEntry]
+  | cons e r ih =>
+    obtain ⟨k', w'⟩ := e
+    simp only [addEntry]
+    by_cases h : k' = k
+    · subst h
+      simp only [if_true, List.map_cons, List.mem_cons]
+      constructor
+      · intro h; exact h.elim (fun h => Or.inl (Or.inl h)) (fun h => Or.inl (Or.inr h))
+      · intro h; rcases h with (h | h) | h
+        · exact Or.inl h
+        · exact Or.inr h
+        · exact Or.inl h
+    · simp only [if_neg h, List.map_cons, List.mem_cons, ih]
+      constructor
+      · intro h; rcases h with h | h | h
+        · exact Or.inl (Or.inl h)
+        · exact Or.inl (Or.inr h)
+        · exact Or.inr h
+      · intro h; rcases h with (h | h) | h
+        · exact Or.inl h
+        · exact Or.inr (Or.inl h)
+        · exact Or.inr (Or.inr h)
+
+theorem addEntry_nodup (add : W → W → W) (l : List (List α × W)) (k : List α) (w : W)
+    (hnd : (l.map Prod.fst).Nodup) : ((addEntry add l k w).map Prod.fst).Nodup := by
+  induction l with
+  | nil => simp [addEntry]
+  | cons e r ih =>
+    obtain ⟨k', w'⟩ := e
+    simp only [List.map_cons, List.nodup_cons] at hnd
+    simp only [addEntry]
+    by_cases h : k' = k
+    · subst h
+      simpa using hnd
+    · simp only [if_neg h, List.map_cons, List.nodup_cons]
+      refine ⟨?_, ih hnd.2⟩
+      rw [addEntry_keys]
+      intro hc
+      rcases hc with hc | hc
+      · exact hnd.1 hc
+      · exact h hc
+
+theorem addEntry_P (add : W → W → W) (P : List α → W → Prop)
+    (hP : ∀ k a b, P k a → P k b → P k (add a b))
+    (l : List (List α × W)) (k : List α) (w : W) (hl : ∀ e ∈ l, P e.1 e.2) (hw : P k w) :
+    ∀ e ∈ addEntry add l k w, P e.1 e.2 := by
+  induction l with
+  | nil => intro e he; simp [addEntry] at he; subst he; exact hw
+  | cons x r ih =>
+    obtain ⟨k', w'⟩ := x
+    have hx : P k' w' := hl (k', w') (by simp)
+    have hr : ∀ e ∈ r, P e.1 e.2 := fun e he => hl e (List.mem_cons_of_mem _ he)
+    simp only [addEntry]
+    by_cases h : k' = k
+    · subst h
+      rw [if_pos rfl]
+      intro e he
+      rcases List.mem_cons.1 he with he | he
+      · subst he; exact hP _ _ _ hx hw
+      · exact hr e he
+    · rw [if_neg h]
+      intro e he
+      rcases List.mem_cons.1 he with he | he
+      · subst he; exact hx
+      · exact ih hr e he
+
+theorem addEntry_sumAt (add : W → W → W) (ev : W → Int) (P : List α → W → Prop)
+    (hadd : ∀ k a b, P k a → P k b → ev (add a b) = ev a + ev b)
+    (l : List (List α × W)) (k : List α) (w : W) (hl : ∀ e ∈ l, P e.1 e.2) (hw : P k w) (x : List α) :
+    sumAt ev (addEntry add l k w) x = sumAt ev l x + (if k = x then ev w else 0) := by
+  induction l with
+  | nil => simp [addEntry, sumAt_cons, sumAt_nil]
+  | cons e r ih =>
+    obtain ⟨k', w'⟩ := e
+    have hx : P k' w' := hl (k', w') (by simp)
+    have hr : ∀ e ∈ r, P e.1 e.2 := fun e he => hl e (List.mem_cons_of_mem _ he)
+    simp only [addEntry]
+    by_cases h : k' = k
+    · subst h
+      rw [if_pos rfl, sumAt_cons, sumAt_cons]
+      by_cases hx' : k' = x
+      · simp only [hx', if_true]
+        rw [hadd x _ _ (hx' ▸ hx) (hx' ▸ hw)]; omega
+      · simp [hx']
+    · rw [if_neg h, sumAt_cons, sumAt_cons, ih hr]; omega
+
+theorem addAll_gen (add : W → W → W) (ev : W → Int) (P : List α → W → Prop)
+    (hP : ∀ k a b, P k a → P k b → P k (add a b))
+    (hadd : ∀ k a b, P k a → P k b → ev (add a b) = ev a + ev b)
+    (es : List (List α × W)) (hent : ∀ e ∈ es, P e.1 e.2) :
+    ∀ (acc : List (List α × W)), (acc.map Prod.fst).Nodup → (∀ e ∈ acc, P e.1 e.2) →
+      ((addAll add es acc).map Prod.fst).Nodup ∧
+      (∀ k, k ∈ (addAll add es acc).map Prod.fst ↔ k ∈ acc.map Prod.fst ∨ k ∈ es.map Prod.fst) ∧
+      (∀ e ∈ addAll add es acc, P e.1 e.2) ∧
+      ∀ k, sumAt ev (addAll add es acc) k = sumAt ev acc k + sumAt ev es k := by
+  induction es with
+  | nil =>
+    intro acc hnd hacc
+    exact ⟨hnd, fun k => by simp [addAll], hacc, fun k => by simp [addAll, sumAt_nil]⟩
+  | cons e r ih =>
+    intro acc hnd hacc
+    have he : P e.1 e.2 := hent e (by simp)
+    have hr : ∀ x ∈ r, P x.1 x.2 := fun x hx => hent x (List.mem_cons_of_mem _ hx)
+    obtain ⟨i1, i2, i3, i4⟩ := ih hr (addEntry add acc e.1 e.2) (addEntry_nodup add acc e.1 e.2 hnd)
+      (addEntry_P add P hP acc e.1 e.2 hacc he)
+    have hunf : addAll add (e :: r) acc = addAll add r (addEntry add acc e.1 e.2) := rfl
+    rw [hunf]
+    refine ⟨i1, ?_, i3, ?_⟩
+    · intro k
+      rw [i2, addEntry_keys]
+      simp only [List.map_cons, List.mem_cons]
+      constructor
+      · intro h; rcases h with (h | h) | h
+        · exact Or.inl h
+        · exact Or.inr (Or.inl h)
+        · exact Or.inr (Or.inr h)
+      · intro h; rcases h with h | h | h
+        · exact Or.inl (Or.inl h)
+        · exact Or.inl (Or.inr h)
+        · exact Or.inr h
+    · intro k
+      rw [i4, addEntry_sumAt add ev P hadd acc e.1 e.2 hacc he, sumAt_cons]; omega
 
 end V.Merge
 
@@ -42,6 +265,11 @@ theorem addAll_correct (add : W → W → W) (d : W) (ev : W → Int) (P : List 
     (∀ e ∈ addAll add es [], P e.1 e.2) ∧
     ∀ k ∈ es.map Prod.fst,
       ev (Merge.lookupD d (addAll add es []) k) = ((es.filter (fun e => e.1 = k)).map (fun e => ev e.2)).sum := by
-  sorry
+  obtain ⟨h1, h2, h3, h4⟩ := Merge.addAll_gen add ev P hP hadd es hent [] (by simp) (by simp)
+  refine ⟨h1, ?_, h3, ?_⟩
+  · intro k; rw [h2]; simp
+  · intro k hk
+    rw [Merge.lookupD_eq_sumAt d ev _ h1 k ((h2 k).2 (Or.inr hk)), h4, Merge.sumAt_nil]
+    simp [Merge.sumAt]
 
 end V
